@@ -35,11 +35,11 @@ func funcKey(fn *types.Func) string {
 			ptr = "*"
 		}
 		if n, ok := t.(*types.Named); ok {
-			return "(" + ptr + fn.Pkg().Path() + "." + n.Obj().Name() + ")." + fn.Name()
+			return "(" + ptr + fn.Pkg().Path() + "." + n.Obj().Name() + ")." + load.CanonName(fn)
 		}
 		return ""
 	}
-	return fn.Pkg().Path() + "." + fn.Name()
+	return fn.Pkg().Path() + "." + load.CanonName(fn)
 }
 
 // RWho: only the sanctioned sites reference a file-system mutator.
